@@ -170,7 +170,15 @@ def run_image(model, recs, tf, data):
         with open(os.path.join(d, "disc.bin"), "wb") as f:
             f.write(akai_bin() if data else Q.bin_bytes(Q.SECTOR * 240 + 10))
         st0, base = image_obs(d, "canon.cue", apply(model, recs, []), data)
-        st1, got = image_obs(d, "trans.cue", apply(model, recs, tf), data)
+        if tf and tf[0][0] == "eof":
+            # how the FILE ends: without a final line end, with blanks / a tab behind an unterminated last line, with extra
+            # blank lines, under LF and CRLF
+            lines = apply(model, recs, [])
+            eol = "\r\n" if tf[0][2] else "\n"
+            raw = (eol.join(lines) + {"none": "", "blanks": "   ", "tab": "\t", "extra": eol + eol + eol, "cr": "\r"}[tf[0][1]]).encode("ascii")
+            st1, got = image_obs(d, "trans.cue", None, data, raw=raw)
+        else:
+            st1, got = image_obs(d, "trans.cue", apply(model, recs, tf), data)
     if st0 != "ok":
         return False, "canonical-sheet-failed", {"observed": repr(base)[:200]}
     want_cls = "CompactDiskAudioImage" if not data else "AkaiImageParser"
@@ -226,7 +234,7 @@ class Check(CheckBase):
             "single transformations: 80 keyword-case combinations (3^4-1), padding {leading, trailing, tabs, CR, 1100 leading blanks, 5000 trailing blanks, 2000 tabs on both sides} uniform "
             "and on each single line, each of 24 blank/unknown lines (upper, lower and mixed case, one with an unheard-of keyword, six of ONE word or punctuation only) at every admissible position (before FILE, anywhere "
             "after the first TRACK line; blank lines also between FILE and the first TRACK); x line ending {LF, CRLF}; all PAIRS of single transformations (quick: sheets "
-            "with <=2 tracks and every 5th pair; thorough: all); structure compared with the model; image-level (real "
+            "with <=2 tracks and every 5th pair; thorough: all); structure compared with the model; image-level (real files; also five ways a file can END: no final line end, blanks / a tab / a CR behind an unterminated last line, extra blank lines, under LF and CRLF) (real "
             "files, class + ls text) for all single transformations; 150 / 1500 (thorough also 700 / 6000) copies of an ignorable "
             "line at every admissible position (sheets of 2 KB .. 90 KB; 7000 comment lines / 300 000 blank lines at the first and last position: 84 KB, 300 KB); negative: FILE line removed, non-ASCII byte on each "
             "line, FILE line missing / non-ASCII byte after 20 KB of harmless text -> not a cue sheet and no exception. non-trivial = transformed text differs from canonical")
@@ -304,6 +312,12 @@ class Check(CheckBase):
                     rep.case({"mode": "image", "sheet": sh, "tf": [t]}, ok=ok, klass=klass, nontrivial=True, detail=detail,
                              sig=f"image:{klass}:bulk")
         elif shard["mode"] == "image":
+            for how in ("none", "blanks", "tab", "extra", "cr"):
+                for crlf in (0, 1):
+                    t = ["eof", how, crlf]
+                    ok, klass, detail = run_image(model, recs, [t], sh[3])
+                    rep.case({"mode": "image", "sheet": sh, "tf": [t]}, ok=ok, klass=klass, nontrivial=True, detail=detail,
+                             sig=f"image:{klass}:eof")
             sel = singles if not self.quick else singles[::4]
             for t in sel:
                 ok, klass, detail = run_image(model, recs, [t], sh[3])
